@@ -23,7 +23,8 @@ ASSUMPTIONS = ['bootloader protocol: 0x10 info, 0x12 mapping, 0x14 load buffer (
                'a retransmitted write-flash command re-executes the same copy (idempotent)']
 REQUIRED = ['mon.flashes_completed', 'mon.images_compared', 'mon.load_buffer_packets', 'mon.too_large_refused',
             'mon.reply_scripts', 'mon.aborted_after_failure', 'mon.page_override', 'mon.exact_multiples',
-            'mon.flashes_with_progress_callback', 'mon.late_answer_then_failing_write']
+            'mon.flashes_with_progress_callback', 'mon.late_answer_then_failing_write',
+            'mon.second_flash_with_the_same_bootloader']
 EXHAUSTIVE = {'quick': False, 'thorough': False}
 DESC_TIMEOUT = 1200
 
@@ -280,6 +281,29 @@ def flash_once(ctx, tid, ps, bp, fp, sp, length, override, script, rnd, label):
         ctx.violate('flash:buffer-byte-uploaded-more-than-once', dict(info_d, n=sum(1 for v in cover.values() if v != 1)), replay=rp)
     if len(cover) != length:
         ctx.violate('flash:uploaded-bytes-do-not-cover-the-image', dict(info_d, covered=len(cover)), replay=rp)
+    # the same Bootloader object flashes a second, different image of another length (firmware, then a deck image...)
+    if not script and length % 3 == 0:
+        length2 = max(1, min((fp - start) * ps, (length * 7) // 5 + 1 if length % 2 else max(1, length // 2)))
+        image2 = bytes((b ^ 0x5A) for b in rnd.randbytes(length2))
+        tgt.flash[:] = tgt.flash0
+        tgt.written.clear()
+        tgt.log.clear()
+        exc2 = None
+        old = sys.stdout
+        sys.stdout = io.StringIO()
+        try:
+            bl._internal_flash(FlashArtifact(image2, art.target, None), page_override=override)
+        except Exception as e:  # noqa
+            exc2 = e
+        finally:
+            sys.stdout = old
+        ctx.evals()
+        ctx.count('mon.second_flash_with_the_same_bootloader')
+        np2 = (length2 - 1) // ps + 1
+        if exc2 is not None or tgt.bad or bytes(tgt.flash[lo * ps:lo * ps + length2]) != image2 or \
+                any(p < lo or p >= lo + np2 for p in tgt.written):
+            ctx.violate('flash:second-flash-with-the-same-object-wrong', dict(info_d, second_length=length2, raised=repr(exc2),
+                                                                           bad=[str(b) for b in tgt.bad[:2]]), replay=rp)
     return (len(loads), len(writes))
 
 
